@@ -1,7 +1,7 @@
 import QtyModel.Case
 /-
-  Model of cargo feature resolution (transitive closure of the `[features]`
-  table), of `#[cfg(...)]` evaluation and of the module gates of `src/lib.rs`.
+  Model of cargo feature resolution (least set of features closed under the
+  `[features]` table), of `#[cfg(...)]` evaluation and of the module gates of `src/lib.rs`.
 -/
 namespace Qty
 
@@ -14,4 +14,54 @@ inductive Cfg where
   | any (cs : List Cfg)
   deriving Repr, Inhabited
 
+namespace Features
+
+abbrev Table := List (Text × List Text)
+
+def depsOf (tbl : Table) (f : Text) : List Text :=
+  ((tbl.find? (fun p => p.1 == f)).map (·.2)).getD []
+
+/-- cargo's resolution as a relation: the least set containing the requested features and
+closed under the dependency lists -/
+inductive Reach (tbl : Table) (req : List Text) : Text → Prop
+  | base (f : Text) : f ∈ req → Reach tbl req f
+  | step (g f : Text) : Reach tbl req g → f ∈ depsOf tbl g → Reach tbl req f
+
+/-- one round of closure -/
+def stepSet (tbl : Table) (s : List Text) : List Text :=
+  s ++ (s.flatMap (depsOf tbl)).filter (fun f => !s.contains f)
+
+/-- executable closure: `fuel` rounds -/
+def closureAux (tbl : Table) : Nat → List Text → List Text
+  | 0, s => s
+  | n + 1, s => closureAux tbl n (stepSet tbl s)
+
+def closure (tbl : Table) (req : List Text) : List Text := closureAux tbl (tbl.length + 1) req
+
+/-- evaluation of a cfg predicate: enabled features and target pointer width are the only
+inputs that occur; `target_pointer_width` is the code-point list of that key -/
+def ptrKey : Text := [116, 97, 114, 103, 101, 116, 95, 112, 111, 105, 110, 116, 101, 114, 95, 119, 105, 100, 116, 104]
+
+mutual
+def cfgEval (feats : List Text) (ptrWidth : Text) : Cfg → Bool
+  | .feature n => feats.contains n
+  | .kv k v => k == ptrKey && v == ptrWidth
+  | .flag _ => false
+  | .not c => !cfgEval feats ptrWidth c
+  | .all cs => cfgAll feats ptrWidth cs
+  | .any cs => cfgAny feats ptrWidth cs
+def cfgAll (feats : List Text) (ptrWidth : Text) : List Cfg → Bool
+  | [] => true
+  | c :: cs => cfgEval feats ptrWidth c && cfgAll feats ptrWidth cs
+def cfgAny (feats : List Text) (ptrWidth : Text) : List Cfg → Bool
+  | [] => false
+  | c :: cs => cfgEval feats ptrWidth c || cfgAny feats ptrWidth cs
+end
+
+/-- the gate feature of a module whose gate is the plain `cfg(feature = "f")` -/
+def gateFeature : Cfg → Option Text
+  | .feature n => some n
+  | _ => none
+
+end Features
 end Qty
